@@ -115,7 +115,10 @@ func (self ValueString) Fields() (map[string]*Value, *VmInterrupt) {
 		}),
 		"parse_json": NewValueBuiltinFunction(func(executor Executor, cancelCtx *context.Context, span errors.Span, args ...Value) (*Value, *VmInterrupt) {
 			var raw interface{}
-			if err := json.Unmarshal([]byte(self.Inner), &raw); err != nil {
+			// Keep numbers as written: `1.0` is a float, `9007199254740993` an exact int.
+			decoder := json.NewDecoder(strings.NewReader(self.Inner))
+			decoder.UseNumber()
+			if err := decoder.Decode(&raw); err != nil {
 				return nil, NewVMThrowInterrupt(span, fmt.Sprintf("JSON parse error: %s", err.Error()))
 			}
 			value, i := UnmarshalValue(span, raw)
